@@ -168,7 +168,7 @@ SUITES = {
     'C12': [('module_visibility', _modules, 'expand() (import fix-point), path resolution in context',
              '30 module sets of 2..4 files (public/private function, constant, structure, opaque structure; direct, missing, transitive, diamond, duplicate, mutual and late imports; relative paths; look-alike file names; an empty or comment-only file and a bystander module among the files; parameter names of imported functions) x file orders')],
     'C13': [('determinism', _determinism, 'HashMap/HashSet iteration order in scoper/typer/expander',
-             'invalid and valid samples of the repository plus 4 constructed multi-error modules, each compiled in 3 (thorough: 5) fresh processes'),
+             'invalid and valid samples of the repository plus 4 constructed multi-error modules (these 8 times; thorough: 10), each compiled in 3 (thorough: 5) fresh processes'),
             ('diagnostic_locations', _locations, 'alpha parser span bookkeeping (location_of_span, combined_with call sites), error.rs',
              '4 programs with 10 diagnostics whose primary location must be the line and text of the offending construct (calls, multi-line string literals, undefined names); every Location in the diagnostics of 10 multi-line constructs, 120 (thorough: all 270) prefixes of one module cut at arbitrary characters (the file ends at its last token), 80 by-construction rejected programs, 60 (thorough: all) invalid samples and 40 CRLF variants: inside the source, starting on the reported line'),
             ('rendering', _render, 'error.rs build_report/write and the ariadne renderer',
